@@ -802,7 +802,7 @@ class Evaluator:
                 if same(kk.v if isinstance(kk, _HK) else kk, k): return vv
             if not has_opaque(k) and all(isinstance(kk, (str, int, bool)) for kk in v) and isinstance(k, str):
                 return Opq('KeyError', k)
-            return Poly.atom(('[]', tkey(v), tkey(k)))
+            return Opq('dispatch', v, k)
         if isinstance(v, (tuple, list)) and isinstance(k, Poly) and k.real_const() is not None:
             i = int(k.real_const())
             if -len(v) <= i < len(v): return v[i]
@@ -899,6 +899,8 @@ class Evaluator:
             pkw = {x.k[1]: x.k[2] for x in fv.k[2:] if isinstance(x, Opq) and x.k[0] == 'kw'}
             pkw.update(kw)
             return s.apply(base, pre + list(args), pkw, mod, depth, node)
+        if isinstance(fv, Opq) and fv.k and fv.k[0] == 'dispatch':
+            return Opq('dispatchcall', fv.k[1], fv.k[2], tuple(args), kw)
         if isinstance(fv, Poly) and fv.as_atom() is not None:
             return Poly.atom(('call', fv.as_atom(), tuple(tkey(a) for a in args), tuple(sorted((k, tkey(v)) for k, v in kw.items()))))
         return Opq('?', 'call', fv, *args)
@@ -1126,12 +1128,23 @@ class Evaluator:
                     s.learn(g, True)
                     return s.block(st.body + rest, env, mod, depth)
                 e1, e2 = _fork(env), _fork(env)
+                st0 = dict(s.stores)
                 s._undecided += 1
                 try:
                     r1 = s.block(st.body + rest, e1, mod, depth)
+                    st1 = s.stores; s.stores = dict(st0)
                     r2 = s.block(st.orelse + rest, e2, mod, depth)
+                    st2 = s.stores
                 finally:
                     s._undecided -= 1
+                merged = {}
+                for k in set(st1) | set(st2):
+                    a, b = st1.get(k, st0.get(k)), st2.get(k, st0.get(k))
+                    if r1 is RAISE: merged[k] = b
+                    elif r2 is RAISE: merged[k] = a
+                    elif a is None or b is None: merged[k] = a if b is None else b
+                    else: merged[k] = a if same(a, b) else s.mkcond(g, a, b)
+                s.stores = merged
                 _merge(env, g, e1, e2, s)
                 return s.mkcond(g, r1, r2)
             elif isinstance(st, ast.Try):
